@@ -30,6 +30,20 @@ theorem C19_init_tests : Jap.Gen.pathInitTests =
      ("r", "access:R_OK"), ("w", "access:W_OK"), ("x", "access:X_OK"), ("D", "isdir"), ("F", "is_fifo|isfile"),
      ("R", "access:R_OK"), ("W", "access:W_OK"), ("X", "access:X_OK")] := by decide
 
+/-- the statements of `change_to_path_dir` that decide the directory, in source order: exactly what
+`objDir`/`cfgDir` (the path's `.absolute` AS NAMED — no `realpath`, so a symlinked config file belongs
+to the directory it is named in —, `dirname` unless the mode has `d`), `enter` (`set`, remember
+`os.getcwd()`, `chdir(abspath(·))`, unconditionally) and `leave` (`reset`, `chdir` back, in `finally`)
+transcribe -/
+theorem C19_path_dir_steps : Jap.Gen.pathDirSteps =
+    ["path_dir = current_path_dir.get()", "chdir = False", "if path is not None",
+     "if path._url_data and (path.is_url or path.is_fsspec)", "scheme = path._url_data.scheme", "path_dir = path._url_data.url_path",
+     "scheme = ''", "path_dir = path.absolute", "chdir = True",
+     "if 'd' not in path.mode", "path_dir = os.path.dirname(path_dir)", "path_dir = scheme + path_dir",
+     "token = current_path_dir.set(path_dir)", "if chdir and path_dir", "chdir = os.getcwd()",
+     "path_dir = os.path.abspath(path_dir)", "os.chdir(path_dir)",
+     "current_path_dir.reset(token)", "if chdir", "os.chdir(chdir)"] := by decide
+
 /-- a mode string accepted by `_check_mode` has the structure `__init__` relies on -/
 theorem C19_checkMode_valid (s : List Char) (h : checkModeL table s = true) : ValidMode (Mode.ofList s) := by
   simp only [checkModeL, Bool.and_eq_true] at h
